@@ -91,23 +91,41 @@ func (r C05Range) AdmitsNum(n Num) bool {
 	return true
 }
 
-func (r C05Range) String() string {
+func (r C05Range) String() string { return r.Show(-1) }
+
+// Show prints the part of the range that is meaningful for a receiver kind
+// (every part when kind is negative).
+func (r C05Range) Show(kind C05Kind) string {
 	var b strings.Builder
 	switch r.Null {
 	case TriTrue:
 		b.WriteString("null ")
 	case TriFalse:
 		b.WriteString("notnull ")
+	default:
+		b.WriteString("nullable ")
 	}
-	lb, rb := "(", ")"
-	if r.LoInc {
-		lb = "["
+	if kind < 0 || kind == C05Num {
+		lb, rb := "(", ")"
+		if r.LoInc {
+			lb = "["
+		}
+		if r.HiInc {
+			rb = "]"
+		}
+		fmt.Fprintf(&b, "num%s%s,%s%s ", lb, r.Lo, r.Hi, rb)
 	}
-	if r.HiInc {
-		rb = "]"
+	if kind < 0 || kind == C05Str {
+		fmt.Fprintf(&b, "prefix=%q ", r.Prefix)
 	}
-	fmt.Fprintf(&b, "num%s%s,%s%s prefix=%q len[%d,%d]", lb, r.Lo, r.Hi, rb, r.Prefix, r.MinLen, r.MaxLen)
-	return b.String()
+	if kind < 0 || kind == C05Coll {
+		if r.MaxLen == math.MaxInt {
+			fmt.Fprintf(&b, "len[%d,MaxInt] ", r.MinLen)
+		} else {
+			fmt.Fprintf(&b, "len[%d,%d] ", r.MinLen, r.MaxLen)
+		}
+	}
+	return strings.TrimSpace(b.String())
 }
 
 // C05Probe is a concrete candidate value together with an independent
